@@ -42,6 +42,7 @@ class Selectable(Node):
     @builder
     def as_(self, alias: str) -> "Self":  # type:ignore[return]
         self.alias = alias
+        self._automatic_alias = False
 
     def field(self, name: str) -> Field:
         return Field(name, table=self)
@@ -985,7 +986,9 @@ class QueryBuilder(Selectable, Term):  # type:ignore[misc]
             else selectable  # type:ignore[arg-type]
         )
 
-        if isinstance(selectable, (QueryBuilder, _SetOperation)) and selectable.alias is None:
+        if isinstance(
+            selectable, (QueryBuilder, _SetOperation)
+        ) and self._needs_automatic_alias(selectable):
             if isinstance(selectable, QueryBuilder):
                 sub_query_count = selectable._subquery_count
             else:
@@ -993,6 +996,7 @@ class QueryBuilder(Selectable, Term):  # type:ignore[misc]
 
             sub_query_count = self._free_subquery_number(max(self._subquery_count, sub_query_count))
             selectable.alias = "sq%d" % sub_query_count
+            selectable._automatic_alias = True
             self._subquery_count = sub_query_count + 1
 
     @builder
@@ -1305,7 +1309,7 @@ class QueryBuilder(Selectable, Term):  # type:ignore[misc]
             return Joiner(self, item, how, type_label="table")
 
         elif isinstance(item, QueryBuilder):
-            if item.alias is None:
+            if self._needs_automatic_alias(item):
                 self._tag_subquery(item)
             return Joiner(self, item, how, type_label="subquery")
 
@@ -1313,7 +1317,7 @@ class QueryBuilder(Selectable, Term):  # type:ignore[misc]
             return Joiner(self, item, how, type_label="table")
 
         elif isinstance(item, Selectable):
-            if isinstance(item, _SetOperation) and item.alias is None:
+            if isinstance(item, _SetOperation) and self._needs_automatic_alias(item):
                 # a joined set operation needs a name as much as a joined query does
                 self._tag_subquery(item)  # type:ignore[arg-type]
             return Joiner(self, item, how, type_label="subquery")
@@ -1516,9 +1520,20 @@ class QueryBuilder(Selectable, Term):  # type:ignore[misc]
             number += 1
         return number
 
+    def _needs_automatic_alias(self, item: Any) -> bool:
+        if item.alias is None:
+            return True
+        # an automatic alias inherited from the builder this one was derived from (q2 = q.where(..) after q served as
+        # a source elsewhere) is given anew when another source of this statement answers to it already
+        return bool(getattr(item, "_automatic_alias", False)) and any(
+            source is not item and getattr(source, "alias", None) == item.alias
+            for source in self._from + [j.item for j in self._joins]
+        )
+
     def _tag_subquery(self, subquery: Self) -> None:
         number = self._free_subquery_number(self._subquery_count)
         subquery.alias = "sq%d" % number
+        subquery._automatic_alias = True
         self._subquery_count = number + 1
 
     def _validate_terms_and_append(self, *terms: Any) -> None:
